@@ -189,7 +189,7 @@ type aView struct {
 
 var propOfProfile = map[string]string{
 	"c01": "C01", "c01two": "C01", "nofault": "C01", "limits": "C01", "c05": "C05", "c06": "C06", "c07": "C07", "c07big": "C07", "c11": "C11", "c11big": "C11", "c11dd": "C11", "c12": "C12",
-	"c17a": "C17", "c18": "C18", "c19": "C19",
+	"c17a": "C17", "c18": "C18", "c19": "C19", "c04a": "C04",
 }
 
 func (r *aRun) buildView(out *Outcome) *aView {
@@ -339,6 +339,8 @@ func (r *aRun) evaluate(out *Outcome) {
 	switch prop {
 	case "C01":
 		r.oracleC01(v)
+	case "C04":
+		r.oracleC04A(v)
 	case "C05":
 		r.oracleC05(v)
 	case "C06":
@@ -377,6 +379,7 @@ func (r *aRun) evaluate(out *Outcome) {
 		out.probe("log:"+pat, strings.Count(out.Log, pat))
 	}
 	out.probe("messages_received", len(r.srv.msgs))
+	out.probe("agent_processes_killed", r.kills)
 	out.probe("pings_received", r.srv.pings)
 	out.probe("records_fully_read", len(v.full))
 	out.probe("records_on_disk_at_end", len(v.onDisk))
@@ -431,6 +434,101 @@ func (r *aRun) evaluate(out *Outcome) {
 			fmt.Fprintf(&sb, "STOP gen=%d at=%v took=%v files=%v\n", st.Gen, st.At, st.Took, names)
 		}
 		out.Log += sb.String()
+	}
+}
+
+// ---------------------------------------------------------------------------------------------------------------
+// C04 end to end (profile c04a): what the upstream receives after disk faults and kills
+
+func (r *aRun) oracleC04A(v *aView) {
+	out := r.out
+	// (1) nothing truncated or altered is sent upstream: every message decodes completely, says how many events it carries, and
+	// every event equals the event of its own record
+	for _, e := range r.srv.decodeErr {
+		r.note("C04", "corrupt-forwarded", "undecodable-message-upstream", "the upstream could not decode a message: %s", e)
+	}
+	type ck struct{ tag, id string }
+	content := map[ck]string{}
+	for _, m := range r.srv.msgs {
+		out.Obligations++
+		where := fmt.Sprintf("message at t=%v on upstream connection %d (chunk %s)", m.T, m.Conn, m.ID)
+		if m.Size != len(m.Entries) {
+			r.note("C04", "altered", "size-option-disagrees", "%s: option size=%d but the chunk carries %d events", where, m.Size, len(m.Entries))
+		}
+		// a chunk transmitted again - from memory, from its file, after a restart - is the same chunk
+		var sb strings.Builder
+		for i := range m.Entries {
+			fmt.Fprintf(&sb, "%s|%v|%d;", eventStamp(&m.Entries[i]), m.Entries[i].Time, len(m.Entries[i].Record))
+		}
+		k := ck{m.Tag, m.ID}
+		if prev, seen := content[k]; seen && prev != sb.String() {
+			r.note("C04", "altered", "chunk-differs-between-transmissions", "%s: chunk %s of %s was transmitted before with other contents: [%s] then [%s]", where, m.ID, m.Tag, clip(prev, 120), clip(sb.String(), 120))
+		}
+		content[k] = sb.String()
+	}
+	for st, ds := range v.deliveries {
+		sr := v.byStamp[st]
+		if sr == nil || sr.rec.Raw != "" {
+			continue
+		}
+		for _, d := range ds {
+			out.Obligations++
+			if diff := r.checkEvent(v, sr, d.entry); diff != "" {
+				r.note("C04", "altered", "altered-upstream", "record %s arrived upstream altered after it went through the disk queue or not: %s", st, diff)
+			}
+		}
+	}
+	r.checkNoPhantoms(v, "C04")
+	// (2) what a fault or a kill has left in the queue directories does not block the recovery of the rest: every chunk file the
+	// last generation found at its start is gone when it stops (transmitted and acknowledged, or removed as corrupt and counted);
+	// no file with a chunk's name is left that does not decode
+	if len(r.stops) > 0 && r.filesAtLastStart != nil {
+		last := r.stops[len(r.stops)-1]
+		for p, data := range r.filesAtLastStart {
+			if !strings.HasSuffix(p, ".ff") {
+				continue
+			}
+			out.Obligations++
+			if _, still := last.Files[p]; still {
+				what := "intact"
+				if _, derr := decodeChunkFile(data); derr != nil {
+					what = fmt.Sprintf("damaged (%d bytes: %v)", len(data), derr)
+				}
+				r.note("C04", "recovery-blocked", "file-left-behind", "chunk file %s (%s) was in the queue when the last generation started and is still there after it ran with a healthy upstream and a fault-free disk for the whole bound", p, what)
+			}
+		}
+		for p, data := range last.Files {
+			if strings.HasSuffix(p, ".ff") {
+				if _, derr := decodeChunkFile(data); derr != nil {
+					r.note("C04", "corrupt-forwarded", "damaged-file-under-chunk-name", "after the final stop the queue holds %s (%d bytes), which does not decode as a chunk (%v) and would be forwarded by the next start", p, len(data), derr)
+				}
+			}
+		}
+	}
+	if r.notDrained {
+		r.note("C04", "recovery-blocked", "queue-not-drained", "chunk files were still in the queue when the bound had passed although the upstream was healthy and the disk fault-free")
+	}
+	// (3) without a kill, a record is missing only when a chunk was counted as dropped
+	if r.kills == 0 {
+		lost, first := 0, ""
+		for _, sr := range v.full {
+			if sr.rec.Raw != "" || sr.rec.Drop {
+				continue
+			}
+			out.Obligations++
+			if st := stampOf(sr); !v.acked[st] && !v.onDisk[st] {
+				lost++
+				if first == "" {
+					first = st
+				}
+			}
+		}
+		if lost > 0 && v.dropped == 0 {
+			r.note("C04", "unaccounted", "unaccounted-world-a", "%d records (first %s) are neither acknowledged nor on disk after disk faults without a kill, and dropped_chunks_total is 0", lost, first)
+		}
+		if lost > 0 {
+			out.probe("records_lost_to_counted_disk_faults", lost)
+		}
 	}
 }
 
@@ -1157,6 +1255,17 @@ func (r *aRun) oracleC11(v *aView) {
 // C12 isolation despite pooling
 
 func (r *aRun) oracleC12(v *aView) {
+	// after a successful reload a record may have been processed under the new configuration: then it equals what a fresh
+	// pipeline of THAT configuration gives
+	var refNew *aReference
+	if r.s.Reloader && strings.Contains(r.logbuf.String(), "reloaded config") {
+		var err error
+		if refNew, err = newAReference(r.s.configYAML("valid2")); err != nil {
+			r.out.Harness = "reference config v2: " + err.Error()
+			return
+		}
+		r.out.probe("c12_runs_with_a_successful_reload", 1)
+	}
 	for _, sr := range v.full {
 		if sr.rec.Raw != "" || sr.rec.Drop {
 			continue
@@ -1164,7 +1273,14 @@ func (r *aRun) oracleC12(v *aView) {
 		st := stampOf(sr)
 		for _, d := range v.deliveries[st] {
 			r.out.Obligations++
-			if diff := r.checkEvent(v, sr, d.entry); diff != "" {
+			diff := r.checkEvent(v, sr, d.entry)
+			if diff != "" && refNew != nil {
+				saved := v.ref
+				v.ref = refNew
+				diff = r.checkEvent(v, sr, d.entry)
+				v.ref = saved
+			}
+			if diff != "" {
 				r.note("C12", "not-isolated", "not-isolated", "the event of record %s differs from what the same record gives on a fresh pipeline: %s", st, diff)
 			}
 		}
@@ -1174,7 +1290,11 @@ func (r *aRun) oracleC12(v *aView) {
 			r.note("C12", "not-isolated", "filtered-record-delivered", "record %s carries the drop marker but was delivered", stampOf(sr))
 		}
 	}
-	r.checkNoPhantoms(v, "C12")
+	if refNew != nil {
+		r.checkNoPhantoms(v, "C12", refNew)
+	} else {
+		r.checkNoPhantoms(v, "C12")
+	}
 	if r.srv2 != nil {
 		// the second output serializes the same record structs after (or before) the first one: same rule, its own reference
 		ref2, err := newAReference(r.s.configYAML(""))
@@ -1199,7 +1319,16 @@ func (r *aRun) oracleC12(v *aView) {
 					r.note("C12", "not-isolated", "filtered-record-delivered", "record %s carries the drop marker but was delivered to the second output", st)
 					continue
 				}
-				if diff := r.checkEvent(v, sr, e); diff != "" {
+				diff := r.checkEvent(v, sr, e)
+				if diff != "" && refNew != nil {
+					if refNew2, err := newAReference(r.s.configYAML("valid2")); err == nil {
+						refNew2.outIdx = 1
+						v.ref = refNew2
+						diff = r.checkEvent(v, sr, e)
+						v.ref = ref2
+					}
+				}
+				if diff != "" {
 					r.note("C12", "not-isolated", "not-isolated-output2", "the event of record %s on the second output differs from what the same record gives on a fresh pipeline: %s", st, diff)
 				}
 			}
